@@ -56,6 +56,7 @@ Next ==
             ELSE IF e.frags = <<>> THEN st' = [st EXCEPT !.known = FALSE, !.started = TRUE, !.pidon = e.pidon, !.id = id0]
             ELSE IF e.pidon THEN st' = [st EXCEPT !.id = NextId(IF known THEN id0 ELSE ObservedId(e)), !.known = TRUE, !.started = TRUE, !.pidon = TRUE]
             ELSE st' = [st EXCEPT !.id = NextId(id0), !.known = known, !.started = TRUE, !.pidon = FALSE]
+       ELSE IF e.ev = "unavailable" THEN UNCHANGED st      \* the verification accessor does not fit the implementation (counted by the orchestrator)
        ELSE Reject(e, "unknown_event") /\ UNCHANGED st
 Spec == Init /\ [][Next]_<<l, st>>
 Done == Consumed
